@@ -172,6 +172,22 @@ def run(ctx):
             bad = [t for t in texts if there[t] != here[t]]
             ctx.violation("oracle", {"call": "permute_incidence_fixed_sums", "k": 3, "seed": bad[0], "matrix": base.tolist(), "PYTHONHASHSEED": hs,
                                      "issue": "the same text seed gives another matrix in another interpreter run", "here": here[bad[0]], "there": there[bad[0]]}, site="permute_incidence_fixed_sums")
+    # ---- a matrix buffer refilled in place between two calls: second result as on a fresh array
+    for _ in range(ctx.n(40, 400)):
+        r_, c_ = ctx.rng.randint(2, 4), ctx.rng.randint(2, 5)
+        def rndm():
+            while True:
+                m_ = np.array([[ctx.rng.randint(0, 1) for _ in range(c_)] for _ in range(r_)])
+                if 0 < m_.sum() < r_ * c_:
+                    return m_
+        a1, a2 = rndm(), rndm(); sd_ = ctx.rng.randint(0, 10**6); k_ = ctx.rng.randint(0, 3)
+        buf = a1.copy(); ra = guarded(utils.permute_incidence_fixed_sums, buf, k_, sd_, secs=20); buf[...] = a2
+        rb = guarded(utils.permute_incidence_fixed_sums, buf, k_, sd_, secs=20); rf = guarded(utils.permute_incidence_fixed_sums, a2.copy(), k_, sd_, secs=20)
+        ctx.case(("refill", a1.tobytes(), a2.tobytes(), k_, sd_), True); ctx.count("buffer-refilled-in-place")
+        if rb[0] != rf[0] or (rb[0] == "ok" and not np.array_equal(rb[1], rf[1])) or not np.array_equal(buf, a2):
+            ctx.violation("oracle", {"call": "permute_incidence_fixed_sums", "k": k_, "seed": sd_, "first": a1.tolist(), "second": a2.tolist(),
+                                     "issue": "on a matrix refilled in place the result differs from the result on a fresh array with the same contents (or the buffer was modified)",
+                                     "refilled": str(rb[1:])[:200], "fresh": str(rf[1:])[:200]}, site="permute_incidence_fixed_sums")
     # ---- rejected inputs
     bads = [("1-D", np.array([0, 1, 1])), ("3-D", np.zeros((2, 2, 2))), ("entries 0,1,2", np.array([[0, 1], [2, 0]])),
             ("entries 0,.5,1", np.array([[1, .5, 0], [0, 1, 1]])), ("all zeros", np.zeros((2, 2))), ("all ones", np.ones((2, 3))),
